@@ -14,7 +14,10 @@ def val_to_json(v, world=None):
         return v
     if isinstance(v, float):
         return {'a': 'float:' + repr(v)}
-    if isinstance(v, (tuple, list)):
+    if isinstance(v, list):
+        # a Python list is not a tuple (`[0] != (0,)`): encoded as the application of a reserved constructor
+        return {'app': ['$list', [val_to_json(x, world) for x in v], [], []]}
+    if isinstance(v, tuple):
         return [val_to_json(x, world) for x in v]
     if isinstance(v, dict):
         return {'d': [[val_to_json(k, world) for k in v], [val_to_json(x, world) for x in v.values()]]}
